@@ -6,6 +6,9 @@ line per change and writes /verif/work/reseed.json. Nothing is changed in /repo.
 Usage: tools/reseed.py [id-substring]"""
 import json, os, re, subprocess, sys, tempfile, glob
 
+ROOT = os.path.dirname(os.path.dirname(os.path.abspath(__file__)))  # the /verif this script belongs to (a snapshot works too)
+EVID = os.environ.get("RESEED_EVIDENCE", "/tmp/reseed-evidence")
+
 ENV = dict(os.environ, GOFLAGS="-mod=mod", GOPROXY="off", GOSUMDB="off", GOTOOLCHAIN="local")
 
 def sh(cmd, cwd):
@@ -14,18 +17,18 @@ def sh(cmd, cwd):
 def main():
     want = sys.argv[1] if len(sys.argv) > 1 else ""
     results = []
-    os.makedirs("/verif/work", exist_ok=True)
-    for mp in sorted(glob.glob("/verif/seeded/*/meta.json")):
+    os.makedirs(ROOT + "/work", exist_ok=True)
+    for mp in sorted(glob.glob(ROOT + "/seeded/*/meta.json")):
         m = json.load(open(mp))
         sid = m["id"]
         if want and want not in sid:
             continue
         checks = []
         for d in m.get("detected_by", []):
-            mm = re.match(r"(C\d\d) quick", d)
+            mm = re.match(r"(C\d\d) (quick|thorough)", d)
             if mm and "not detected" not in d.split(":")[0] and "not detected" not in d[:60]:
-                checks.append(mm.group(1))
-        rec = {"id": sid, "expected": checks, "checks": {}}
+                checks.append((mm.group(1), mm.group(2)))
+        rec = {"id": sid, "expected": [c for c, _ in checks], "checks": {}}
         if not checks:
             rec["status"] = "documented blind spot (not run)"
             results.append(rec)
@@ -41,8 +44,9 @@ def main():
                 b = sh("go build ./...", wt)
                 rec["status"] = "applied" if b.returncode == 0 else "does not build"
                 if b.returncode == 0:
-                    for c in checks[:1]:
-                        r = sh(f"VERIF_REPO={wt} VERIF_EVIDENCE_DIR=/tmp/mut-evidence ./verif check {c} --tier quick", "/verif")
+                    for c, tier in checks[:1]:
+                        budget = "VERIF_BUDGET_MS=420000 " if tier == "thorough" else ""
+                        r = sh(f"{budget}VERIF_REPO={wt} VERIF_EVIDENCE_DIR={EVID} ./verif check {c} --tier {tier}", ROOT)
                         kinds = sorted(set(re.findall(r"^violation: (\S+?)@", r.stdout, re.M)))
                         rec["checks"][c] = {"exit": r.returncode, "violation_kinds": kinds}
                         # every reported violation must replay: the first replay file, twice,
@@ -51,7 +55,7 @@ def main():
                         if mm:
                             reps = []
                             for _ in range(2):
-                                rr = sh(f"VERIF_REPO={wt} ./verif replay {mm.group(1)}", "/verif")
+                                rr = sh(f"VERIF_REPO={wt} ./verif replay {mm.group(1)}", ROOT)
                                 got = re.findall(r"^replay: reproduced (\S+)", rr.stdout, re.M)
                                 reps.append((rr.returncode, got[0] if got else ""))
                             rec["checks"][c]["replay"] = reps
@@ -62,7 +66,7 @@ def main():
         det = [c for c, v in rec["checks"].items() if v["exit"] == 1]
         rp = [v.get('replay_reproduces') for v in rec['checks'].values()]
         print(f"{sid:60s} {rec['status'][:40]:40s} detected_by={det} replays={rp} {[v['violation_kinds'][:3] for v in rec['checks'].values()]}", flush=True)
-        json.dump(results, open("/verif/work/reseed.json", "w"), indent=1)
+        json.dump(results, open(ROOT + "/work/reseed.json", "w"), indent=1)
 
 if __name__ == "__main__":
     main()
